@@ -616,14 +616,14 @@ Qed.
 Lemma KR_recover_fold : forall (l : list (name * comp)) acc, rec_acc_ok acc -> rec_acc_ok (fold_left (recover_one H) l acc).
 Proof. induction l as [|x r IH]; intros acc A; simpl; auto. apply IH, KR_recover_one; auto. Qed.
 
-Lemma KR_recover s now : KR s -> KR (recover H s now).
+Lemma KR_recover s now oldest : KR s -> KR (recover H s now oldest).
 Proof.
   intros K. unfold recover.
   pose proof (KR_recover_fold (cmps s) (s, [], []) (conj K (conj (Forall_nil _) (Forall_nil _)))) as A.
   destruct (fold_left (recover_one H) (cmps s) (s, [], [])) as [[s1 fin] val]. destruct A as [K1 [Hf Hv]].
-  assert (K2 := KR_build_cache s1 now (now - 86400) K1).
-  pose proof (heap_len_build_cache s1 now (now - 86400)) as L2.
-  set (s2 := build_cache s1 now (now - 86400)) in *.
+  assert (K2 := KR_build_cache s1 now (Z.min now oldest - 86400) K1).
+  pose proof (heap_len_build_cache s1 now (Z.min now oldest - 86400)) as L2.
+  set (s2 := build_cache s1 now (Z.min now oldest - 86400)) in *.
   assert (Hf2 : Forall (in_range s2) fin) by (apply (Forall_in_range_mono s1); auto).
   assert (Hv2 : Forall (in_range s2) val) by (apply (Forall_in_range_mono s1); auto).
   clearbody s2. clear K1 Hf Hv L2 K s1.
